@@ -318,6 +318,20 @@ build_pool(vf_rng *r, int nmut)
 		mutate_and_add(0, buf, certs[i].l + cal, cl, 2, "localhost", certs[i].n, r, nmut);
 		mutate_and_add(0, buf, certs[i].l, cl, 1, "www.example.com", certs[i].n, r, nmut / 2);
 	}
+	/* a 21 kB leaf (700 subjectAltName entries) + its intermediate: pushes of many kilobytes in one call; accepted,
+	   refused at the very end (other server name), refused early (validity dates in the past: the bytes of notAfter are
+	   rewritten, which the signature check would only notice at the end) */
+	{
+		size_t cl[2], k;
+		memcpy(buf, FX_srv_rsa_big_crt, FX_srv_rsa_big_crt_len); memcpy(buf + FX_srv_rsa_big_crt_len, FX_int_rsa_crt, FX_int_rsa_crt_len);
+		cl[0] = FX_srv_rsa_big_crt_len; cl[1] = FX_int_rsa_crt_len;
+		mutate_and_add(0, buf, cl[0] + cl[1], cl, 2, "localhost", "srv_rsa_big", r, nmut);
+		mutate_and_add(0, buf, cl[0] + cl[1], cl, 2, "other.example.org", "srv_rsa_big-wrong-name", r, 0);
+		for (k = 0; k + 15 < 400; k ++) if (memcmp(buf + k, "20991231235959Z", 15) == 0) { memcpy(buf + k, "20011231235959Z", 15); break; }
+		if (k + 15 >= 400) { fprintf(stderr, "HARNESS_ASSERT big-cert-notafter-not-found\n"); exit(3); }
+		mutate_and_add(0, buf, cl[0] + cl[1], cl, 2, "localhost", "srv_rsa_big-expired", r, 0);
+		vf_stat("pool_big_chains", 3);
+	}
 	for (i = 0; i < sizeof certs / sizeof certs[0]; i ++) mutate_and_add(1, certs[i].p, certs[i].l, NULL, 0, NULL, certs[i].n, r, nmut);
 	for (i = 0; i < sizeof keys / sizeof keys[0]; i ++) mutate_and_add(2, keys[i].p, keys[i].l, NULL, 0, NULL, keys[i].n, r, nmut);
 	/* the same keys as PKCS#8 (written by the library's own encoders): another outer structure for the same decoder */
@@ -472,6 +486,9 @@ mode_dec(long long seed, int worker, int nworkers, int nmut, int nrand, int max_
 			vf_stat("pem_events_compared", nev);
 		}
 		for (sp = 1; sp < in->len && !bad; sp ++) {
+			/* inputs of many kilobytes (a run costs 40 ms under the instrumented interpreter): every split in the first
+			   and last 64 bytes and next to every multiple of 1024, every 211th split elsewhere */
+			if (in->len > 6000 && sp > 64 && sp + 64 < in->len && ((sp + 1) & 1023) > 2 && sp % 211 != 0) continue;
 			run_consumer(in, 1, sp, &r2, &o);
 			vf_stat("runs_two_chunk", 1);
 			if (o.h != ref.h) {
